@@ -109,4 +109,15 @@ def ok (O : Oracles) (a : ActionDecl) (kw : Kwargs) (o : Obs) : Bool :=
       && header? o.headers "Host".toList == some (netloc o.url)
       && (match o.tree with | some t => envelopeOk O a kw t | none => false)
 
+/-- the observable form of an exception the model raises (`anc` = library ancestors by class name) -/
+def excInfo (anc : String → List String) (e : Exc) : ExcInfo := { cls := e.tok, mro := anc e.tok }
+
+/-- what is observed of a model run: the request as the requester receives it, the body as read
+    back by `readEnvelope` -/
+def modelObs (anc : String → List String) (res : List Request × Option Exc) : Obs :=
+  match res with
+  | ([r], _) => { sent := 1, err := none, method := r.method, url := r.url, headers := r.headers,
+                  tree := (readEnvelope r.body).map Envelope.tree }
+  | (_, e) => { sent := 0, err := e.map (excInfo anc) }
+
 end Upnp.C06
